@@ -288,3 +288,40 @@ func init() {
 		typeInfo{"LocalA", mkLocalA, []string{"", "v2"}},
 		typeInfo{"LocalB", mkLocalB, []string{"", "v2"}})
 }
+
+// Box holds values of a struct type WITHOUT any rule (Plain) directly, behind a pointer and in every kind of container: a
+// per-type rule set for Plain handed to NestedStructForRule must reach all of them, whether Plain has been analysed
+// before or not (seeded C08n skipped cached rule-less element types of containers).
+type Box struct {
+	Name  string            `valid:"required" v2:"le=2"`
+	One   *Plain            `valid:"exist" v2:"exist"`
+	List  []Plain           `valid:"exist" v2:"required"`
+	Ptrs  []*Plain          `valid:"required"`
+	Arr   [2]Plain          `valid:"exist"`
+	ByKey map[string]*Plain `valid:"exist"`
+}
+
+func mkPlain(v int) Plain { return Plain{Name: strN(v % 4), Age: v % 3, Code: strN((v * 5) % 4)} }
+
+func mkBox(v int) interface{} {
+	b := &Box{Name: []string{"", "b", "box"}[v%3]}
+	if v%2 == 0 {
+		pl := mkPlain(v / 2)
+		b.One = &pl
+	}
+	for i := 0; i < v%3; i++ {
+		b.List = append(b.List, mkPlain(v+i))
+		pl := mkPlain(v + 2*i + 1)
+		b.Ptrs = append(b.Ptrs, &pl)
+	}
+	b.Arr = [2]Plain{mkPlain(v), mkPlain(v + 1)}
+	if v%4 == 3 {
+		pl := mkPlain(v)
+		b.ByKey = map[string]*Plain{"k": &pl}
+	}
+	return b
+}
+
+func init() {
+	statics = append(statics, typeInfo{"Box", mkBox, []string{"", "v2"}})
+}
